@@ -35,15 +35,26 @@ def descs(ctx):
     out.append(dict(dflow_gen._d("pinned", [S("sc", "scatter", ["in"], ["el", "sz"]), S("ex", "exec", ["el"], ["ex"]),
                                             S("ga", "gather", ["ex", "sz"], ["out"])], {"in": [L(range(1, 5))]}, ["out"], {"jobs", "pinned-directory"}),
                     remote={"locs": ["n1", "n2"], "per_job": 1, "pin_output": "/tmp/shared-out"}))
+    # the pinned directory is lost and invalidated, then the step is scheduled again in the same context (two rounds)
+    out.append(dict(dflow_gen._d("pinned2", [S("sc", "scatter", ["in"], ["el", "sz"]), S("ex", "exec", ["el"], ["ex"]),
+                                             S("ga", "gather", ["ex", "sz"], ["out"])], {"in": [L(range(1, 4))]}, ["out"],
+                                 {"jobs", "pinned-directory", "lost-and-rescheduled"}), pin_local=True, rounds=2))
     return out
 
 
 def to_trace(run):
     tr = []
+    pinned_local = None
+    if run["desc"].get("pin_local"):
+        # the directory every job of the run was given as output directory
+        outs = [e["dirs"][1] for e in run["events"] if e["ev"] == "put" and e.get("k") == "job"]
+        pinned_local = outs[0] if outs and len(set(outs)) == 1 else None
     for e in run["events"]:
+        if e["ev"] == "lose":
+            tr.append({"lose": True, "loc": e["loc"], "dir": e["dir"]})
         if e["ev"] == "put" and e.get("k") == "job":
             tr.append({"job": e["job"], "dirs": e["dirs"], "locs": e.get("locs") or ["?"],
-                       "pinned": ["", (run["desc"].get("remote") or {}).get("pin_output") or "", ""],
+                       "pinned": ["", (run["desc"].get("remote") or {}).get("pin_output") or pinned_local or "", ""],
                        "exists": e.get("exists") if e.get("exists") is not None else [True],
                        "registered": e.get("registered") if e.get("registered") is not None else [False],
                        "observe_error": e.get("observe_error", "")})
@@ -56,6 +67,9 @@ def instance_module(traces):
     jobs, dirs, locs, pinned = [], set(), {}, {}
     for tr in traces:
         for e in tr:
+            if "lose" in e:
+                dirs.add(e["dir"])
+                continue
             if e["job"] not in locs:
                 jobs.append(e["job"])
             locs.setdefault(e["job"], set()).update(e["locs"])
@@ -69,15 +83,16 @@ def instance_module(traces):
 def judge(ctx, d, r, tr, v):
     detail = {"desc": {k: d[k] for k in ("name", "steps", "inputs", "outputs", "fail", "classes")}, "seed": r["seed"], "trace": tr}
     for e in tr:
-        ctx.require(not e["observe_error"], "cannot observe job directories: %s" % e["observe_error"])
+        ctx.require(not e.get("observe_error"), "cannot observe job directories: %s" % e.get("observe_error"))
     if v["ok"]:
         return
     ev = v.get("event")
-    if isinstance(ev, dict):
+    if isinstance(ev, dict) and "job" in ev:
+        again = ":after-loss" if any("lose" in x for x in tr[:tr.index(ev)] if isinstance(x, dict)) else ""
         if not all(ev["exists"]):
-            sig, what = "directory-missing-on-allocated-location", "a directory of job %s does not exist on one of its locations" % ev["job"]
+            sig, what = "directory-missing-on-allocated-location" + again, "a directory of job %s does not exist on one of its locations" % ev["job"]
         elif not all(ev["registered"]):
-            sig, what = "directory-not-registered", "a directory of job %s is not registered as available on one of its locations" % ev["job"]
+            sig, what = "directory-not-registered" + again, "a directory of job %s is not registered as available on one of its locations" % ev["job"]
         else:
             sig, what = "directory-reused", "job %s was given a directory already handed out (or the same directory twice): %s" % (ev["job"], ev["dirs"])
     else:
@@ -90,7 +105,7 @@ def run(ctx):
                 "JobToken observations (directories, locations, isdir, registration) of one run, validated by Trace_JobDirs")
     r = ctx.tlc("JobDirs", "MC_JobDirs", "MC_JobDirs.cfg", coverage=True, timeout=900)
     ctx.require(r.ok, "JobDirs model violates %s" % r.violated)
-    ctx.require_coverage(r, ["Schedule"])
+    ctx.require_coverage(r, ["Schedule", "Lose"])
     ds = descs(ctx)
     seeds = ctx.pick(6, 40)
     # the shell-based remote scenarios build chroot roots per run: fewer seeds for them
@@ -103,14 +118,16 @@ def run(ctx):
         ctx.require(not rr.get("error"), "workflow %s did not complete: %s" % (d["name"], rr.get("error")))
         tr0 = to_trace(rr)
         for e in tr0:       # job names are unique per run only: the batch derives its constants from all traces
-            e["job"] = "%d:%s" % (len(traces), e["job"])
+            if "job" in e:
+                e["job"] = "%d:%s" % (len(traces), e["job"])
         traces.append(tr0)
     ctx.require(all(traces), "no job token observed")
+    ctx.require(any(any("lose" in e for e in t) for t in traces), "no lost-and-rescheduled run observed")
     verdicts = trace.validate(ctx, "JobDirs", "TraceJ", "Trace_JobDirs.cfg", traces, timeout=900, files={"TraceJ.tla": instance_module(traces)})
     njobs = 0
     for (d, sd, _), rr, tr, v in zip(jobs, runs, traces, verdicts):
         njobs += len(tr)
-        ctx.case((d["name"], json.dumps([e["dirs"] for e in tr])))
+        ctx.case((d["name"], json.dumps([e.get("dirs") or ["lose", e.get("dir")] for e in tr])))
         judge(ctx, d, rr, tr, v)
     ctx.count("jobs_observed", njobs)
     ctx.sample({"workflow": ds[0]["name"], "trace": traces[0][:3]})
